@@ -183,10 +183,17 @@ func permitScenario(t int, seed int64, slow bool) ([]map[string]any, error) {
 	defer func() { portalwire.VerifEvent = nil }()
 	sw := netsim.NewSwitch()
 	limit := []int{0, 1, 2, 3, 3}[rng.Intn(5)]
+	if t%24 == 0 || t%24 == 4 || (!slow && t%24 == 7 && limit == 0) {
+		limit = 3
+	}
 	// without --slow one scenario in 24 still waits for the code's own 15 s timeouts (a peer that accepts and never lets the
 	// node connect; an accepted offer whose transfer never comes): it runs in its own child process beside the others
 	timeouts := slow || t%24 == 7
 	forceTimeouts := !slow && t%24 == 7
+	// two scenarios in 24 are laid out instead of drawn, so that every tier and every seed sees each outcome at least once
+	// (the vacuity guard of the check asks for them): one peer of every outbound kind / accepted inbound offers of every kind
+	outShow := t%24 == 0
+	inShow := t%24 == 4
 	flood := t%7 == 3 || t%7 == 5 // fill the offer queue: needs more slots than the queue holds
 	floodStop := t%7 == 5         // ... and stop the node while requests are still queued
 	// without --slow the overflowing flood is stopped too instead of being drained (draining 1400 offers to silent peers
@@ -277,8 +284,8 @@ func permitScenario(t int, seed int64, slow bool) ([]map[string]any, error) {
 		kinds = append(kinds, pkAcceptNoDial)
 	}
 	npeers := 1 + rng.Intn(7)
-	if forceTimeouts && limit == 0 {
-		limit = 2
+	if outShow {
+		npeers = len(kinds)
 	}
 	if flood {
 		npeers = 8
@@ -296,6 +303,9 @@ func permitScenario(t int, seed int64, slow bool) ([]map[string]any, error) {
 	})
 	for i := 0; i < npeers; i++ {
 		k := kinds[rng.Intn(len(kinds))]
+		if outShow { // every outcome once, in order
+			k = kinds[i%len(kinds)]
+		}
 		if forceTimeouts && i == 0 {
 			k = pkAcceptNoDial
 		}
@@ -409,7 +419,7 @@ func permitScenario(t int, seed int64, slow bool) ([]map[string]any, error) {
 	if overlapOut {
 		rounds = 8
 	}
-	stopMid := (!flood && !overlapOut && rng.Intn(4) == 0) || floodStop
+	stopMid := (!flood && !overlapOut && !outShow && !inShow && rng.Intn(4) == 0) || floodStop
 	var wg sync.WaitGroup
 	gossiped := 0
 	var gmu sync.Mutex
@@ -473,12 +483,16 @@ func permitScenario(t int, seed int64, slow bool) ([]map[string]any, error) {
 		}
 	}()
 	nin := 2 + rng.Intn(5)
+	if inShow {
+		nin = 6
+	}
 	forceOpen := t%4 == 1 && limit > 0 // the first `limit` accepted offers keep their stream open, then one more offer follows
 	if forceOpen && nin < limit+2 {
 		nin = limit + 2
 	}
 	inKinds := []string{}
 	neverDone := false
+	accN := 0
 	// streams the harness has established for an accepted offer and not finished yet: while such a stream is young
 	// (the reader's timeout is 60 s, uTP's idle timeout 60 s) the transfer is in progress at the node whatever it
 	// thinks of its slots
@@ -515,7 +529,12 @@ func permitScenario(t int, seed int64, slow bool) ([]map[string]any, error) {
 			continue
 		}
 		cid := binary.BigEndian.Uint16(acc.ConnectionId)
-		kind := []string{"ok", "ok", "badcount", "garbage", "never", "open", "open"}[rng.Intn(7)]
+		inAll := []string{"ok", "badcount", "garbage", "open", "ok", "never", "open"}
+		kind := inAll[rng.Intn(7)]
+		if inShow { // every outcome in turn
+			kind = inAll[accN%4]
+		}
+		accN++
 		if forceOpen && len(opened) < limit {
 			kind = "open"
 		}
